@@ -578,6 +578,20 @@ theorem wrap_no_panic_of_guard
     simp only [Bool.and_eq_true, decide_eq_true_eq] at hs
     omega
 
+/-! ### ties to Model.Client (world engine), whose dedup rule and lookback are written out by hand there -/
+
+/-- the record states that block re-processing are the two Model.Client tests for (`r.state == 3 || r.state == 4` in
+    `deliverOnce`, Props/C07.lean `dedup_blocks`), now as a regenerated fact -/
+theorem wrap_dedup_states_as_in_client (r : Rec) : blocked r = (r.state == 3 || r.state == 4) := by
+  unfold blocked
+  have : Generated.dedupBlockedStates = [3, 4] := by decide
+  rw [this]
+  simp only [List.contains, List.elem]
+  cases (r.state == 3) <;> cases (r.state == 4) <;> rfl
+
+/-- `Model.Client.outerOpens` looks back `List.range 5` epochs: the regenerated DEFAULT_EPOCH_LOOKBACK -/
+theorem wrap_lookback_as_in_client : Generated.epochLookback = 5 := by decide
+
 /-! ### non-vacuity: a well-formed event of a two-group store reaches the MLS layer of the right group; an event that
     carries the other group's id reaches the other group; the same ciphertext six epochs later does not open -/
 def xA : Group := { gid := 0, nid := [1, 2] ++ List.replicate 30 0, epoch := 3, recEpoch := 3, curSid := 13, secrets := [(1, 11), (2, 12)], loadable := true, inner := 5 }
